@@ -112,6 +112,22 @@ DESC = {
     "C17/r3m2": ("__call__ returns early for 3-D input, skipping the soft log-variance bounds", "one batch per member (3-D input)"),
     "C19/r3m1": ("SubtrajectoryReplayBuffer.__setstate__ resets episode_timesteps", "buffer pickled mid-episode, then further additions"),
     "C19/r3m2": ("restore_checkpoint updates and returns the template itself", "two restores through one template"),
+    "C07/r3m1": ("compute_gae rewritten as a lambda-return scan", "a non-terminated step whose next value differs from the following stored value (truncation inside a PPO rollout)"),
+    "C07/r3m2": ("prepare_policy_gradient_dataset writes returns into an array preallocated from the rewards' dtype", "all rewards integers, gamma < 1"),
+    "C08/r3m1": ("PER caches the cumulative priority sum; add_sample does not invalidate it", "exactly full buffer: sample, add, sample without an update in between"),
+    "C08/r3m2": ("lap_priority via jnp.where(|td| > p_min, |td|^alpha, p_min)", "min_priority > 1 with alpha < 1"),
+    "C14/r3m1": ("train_dynaq allocates transition_counter with shared per-action lists", "one state left by two actions with different successors"),
+    "C14/r3m2": ("SARSA update as a moving average in two writes", "self-transition with the same action (s' = s, a' = a)"),
+    "C16/r3m1": ("active CMA-ES negative update divided by the variance instead of sigma", "active=True and step-size variance below 1"),
+    "C16/r3m2": ("flat_params reads all variables, set_params writes Params only", "network with non-Param variables"),
+    "C18/r3m1": ("huber_loss linear branch delta*(|e| - 0.5)", "delta != 1 and |e| > delta"),
+    "C18/r3m2": ("masked_mse_loss always reshapes the mask to (n, 1)", "1-D predictions with a mask that is not all ones"),
+    "C20/r3m1": ("checkpoint cadence short-circuits for interval 1", "interval 1 with a repeated step or a first record at step 0"),
+    "C20/r3m2": ("MemoryLogger.get_stat returns the records sorted by x", "a later record filed under a smaller explicit episode / step"),
+    "C02/r3m1": ("ReplayBuffer.add_sample re-allocates whenever insert_idx == 0 (delivered for C02; same idea as C01/r2m2)", "capacity + 1 additions"),
+    "C02/r3m2": ("MultiTaskReplayBuffer.select_task assigns before the range check", "a rejected select followed by an add"),
+    "C04/r3m1": ("SubtrajectoryReplayBuffer: current_len = max(current_len, insert_idx) after the modulo (freezes one short after the first wrap)", "wrapped ring and a window reaching the last slot"),
+    "C04/r3m2": ("uniform subtrajectory buffer caches the start list; overwriting a start slot does not invalidate it", "sample, add first steps of a new episode over old starts, sample again"),
     "C20/m2": ("record_stat: `episode = episode or counter`", "explicit episode=0 / step=0 after the counters moved"),
 }
 
